@@ -206,6 +206,58 @@ def resolution_and_retarget_cases(ctx):
                           "PRef %s: before re-targeting %s (expected %s), after set_pattern %s (expected %s)" % (where, got_a, exp_a, got_b, exp_b),
                           {"suite": "retarget", "where": where, "a": a, "b": b, "steps_before": k})
 
+    # the by-name reference: PGlobals(name) reads whatever Globals holds under the name at that step; Globals.set re-targets it
+    from isobar.globals import Globals
+    for i in range(ctx.scale(80, 3000)):
+        name = "c12_%d_%d" % (i, r.randint(0, 10 ** 6))
+        a = [r.randint(0, 99) for _ in range(r.randint(1, 4))]
+        b = [r.randint(100, 199) for _ in range(r.randint(1, 4))]
+        kind_a = r.choice(["scalar", "sequence", "sequence", "constant"])
+        kind_b = r.choice(["scalar", "sequence", "sequence", "constant"])
+
+        def target(kind, vals):
+            if kind == "scalar":
+                return vals[0], [vals[0]]
+            if kind == "constant":
+                return iso.PConstant(vals[0]), [vals[0]]
+            return iso.PSequence(list(vals)), list(vals)
+        ta, cyc_a = target(kind_a, a)
+        tb, cyc_b = target(kind_b, b)
+        Globals.set(name, ta)
+        where = r.choice(["direct", "operand", "seq-item", "pdict-value"])
+        g = iso.PGlobals(name)
+        if where == "direct":
+            p, slot = g, (lambda v: v)
+        elif where == "operand":
+            p, slot = g + 1000, (lambda v: v - 1000)
+        elif where == "seq-item":
+            p, slot = iso.PSequence([g]), (lambda v: v)
+        else:
+            p, slot = iso.PDict({"note": g, "amp": 64}), (lambda v: v["note"])
+        k = r.randint(0, 5)
+        try:
+            got_a = [slot(next(p)) for _ in range(k)]
+            if r.random() < 0.5:
+                Globals.set(name, tb)
+            else:
+                Globals.set({name: tb})
+            got_b = [slot(next(p)) for _ in range(r.randint(1, 5))]
+        except Exception as ex:
+            got_a, got_b = ["raised %s" % type(ex).__name__], []
+        finally:
+            Globals.dict.pop(name, None)
+        exp_a = [cyc_a[j % len(cyc_a)] for j in range(k)]
+        exp_b = [cyc_b[j % len(cyc_b)] for j in range(len(got_b))]
+        strict = lambda xs: all(type(x) is int for x in xs)          # Pattern == number is a truthy PEqual: check the types too
+        ctx.case(("retarget-by-name", where, kind_a, kind_b, tuple(a), tuple(b), k), nontrivial=True, validated=False,
+                 sample={"retarget_by_name": {"where": where, "from": kind_a, "to": kind_b, "before": got_a, "after": got_b}} if i < 2 else None)
+        ctx.count("retarget-by-name:%s->%s" % (kind_a, kind_b))
+        if not (strict(got_a) and strict(got_b)) or got_a != exp_a or got_b != exp_b:
+            ctx.violation("C12:globals-retarget:" + where,
+                          "PGlobals %s, global re-set from a %s to a %s: before %r (expected %s), after Globals.set %r (expected %s)" % (
+                              where, kind_a, kind_b, got_a, exp_a, got_b, exp_b),
+                          {"suite": "retarget-by-name", "where": where, "from": kind_a, "to": kind_b, "a": a, "b": b, "steps_before": k})
+
 
 # ---- poll(): printing values must not consume values ------------------------------------------------------------------
 # "consumed one value per use ... never read twice": also when the pattern is polled (poll() prints each value; printing
